@@ -3636,6 +3636,7 @@ static void copy_input_buffer(
     dst->size = src->size;
     dst->qp = src->qp;
     dst->pic_type = src->pic_type;
+    dst->p_app_private = src->p_app_private;
 
     // Copy the metadata array
     if (src->metadata)
